@@ -67,19 +67,27 @@ def run(R):
               "total = plain sum of the entries: an in-gamut capture moved away from the neutral direction at constant total until a component "
               "is negative, or its smallest component replaced by a negative value) and sets that are only marginally outside (an extreme "
               "point of the gamut - all sources at ub or at lb - moved outwards, in total or in offset, by a relative 2^-19..2^-16, so the "
-              "optimal scales differ from 1 by a few ppm; deltas 1e-6/1e-5 there); default and explicit (non-unit-sum) neutral "
+              "optimal scales differ from 1 by a few ppm; deltas 1e-6/1e-5 there); LARGE sets (own stream, %d per run: 30-50 samples, upper bounds 8-16 so that the squared intensities of a fit sum to thousands; "
+              "the first one all in gamut with the 'unity' objective and more sources than receptors); default and explicit (non-unit-sum) neutral "
               "points; objectives 'unity' and 'max'; scale weights; deltas 1e-6..1e-3; solver passed through the keyword "
               "(CLARABEL; the default ECOS is not installed); capture matrix and targets handed in as C/Fortran/strided arrays or nested lists. On dreye's (X, scales): bounds, positivity of the scales, every "
               "sample condition of the property evaluated exactly in Q (theorem adaptive_rows_iff), and a certificate from LP "
               "multipliers through the verified linLower that no feasible pair is closer to (1,1) / has a larger weighted sum "
-              "(theorems unity/max_opt_of_cert). Non-trivial: at least one target outside the gamut." % (6 if R.tier == "quick" else 50))
+              "(theorems unity/max_opt_of_cert). Non-trivial: at least one target outside the gamut." % (6 if R.tier == "quick" else 50, 2 if R.tier == "quick" else 8))
     jobs = []
-    for si in range(nsys):
+    # LARGE instances (own stream): 30-50 samples with intensity units well above 1 (upper bounds 8-16), so that the sum of the
+    # squared intensities of a fit is in the thousands; the first one is an all-in-gamut set with the 'unity' objective and more
+    # sources than receptors (intensities not unique), the others draw everything at random like the small systems
+    nlarge = 2 if R.tier == "quick" else 8
+    plan = [(si, None) for si in range(nsys)] + [(nsys + 1000 + j, j) for j in range(nlarge)]
+    for si, large in plan:
         k = "s%d" % si
         if not R.want(k):
             continue
-        rng = R.rng(1, si)
+        rng = R.rng(1, si) if large is None else R.rng(6, si)
         nf = int(rng.integers(2, 5)); ns = int(rng.integers(2, 7))
+        if large is not None and (large == 0 or rng.integers(2)):
+            ns = int(rng.integers(nf + 1, 7))
         A = gen_A(rng, nf, ns, lo=0.25, hi=3.0, bits=2)
         kk, K = gen_K(rng, nf, kinds=("none", "scalar", "vector"))
         bk, base = gen_baseline(rng, nf)
@@ -89,9 +97,9 @@ def run(R):
             lb = dyadic(rng, 0.0625, 0.25, 4, size=ns)
         elif lbk == "mixed":
             lb = np.where(rng.random(ns) < 0.5, 0.0, 0.25); lb[0] = 0.0; lb[-1] = 0.25
-        ub = lb + dyadic(rng, 1, 3, 2, size=ns)
+        ub = lb + (dyadic(rng, 1, 3, 2, size=ns) if large is None else dyadic(rng, 8, 16, 1, size=ns))
         Ap, bp = apply_K(A, K, base)
-        size = int(rng.integers(1, 7 if R.tier == "quick" else (51 if si % 10 == 0 else 9)))
+        size = int(rng.integers(1, 7 if R.tier == "quick" else (51 if si % 10 == 0 else 9))) if large is None else int(rng.integers(30, 51))
         easy = (lbk == "zero" and bk == "zero")
         nuk = str(rng.choice(["default", "explicit"]))
         nu = np.ones(nf) if nuk == "default" else dyadic(rng, 0.5, 3, 1, size=nf)
@@ -99,6 +107,10 @@ def run(R):
         marg_ok = (ns >= nf) or bool(np.all(bp == 0))
         mode = (str(rng.choice(["inside", "mixed", "outside", "signed"] + ["marginal"] * marg_ok)) if easy
                 else str(rng.choice(["inside", "mixed", "signed"] + ["marginal"] * marg_ok)))
+        if large == 0:
+            mode = "inside"
+        if large is not None:
+            R.count("large:sources-vs-receptors:%s" % ("more" if ns > nf else "equal" if ns == nf else "fewer")); R.count("large:targets:%s" % mode)
         X0 = lb + dyadic(rng, 0.125, 0.875, 3, size=(size, ns)) * (ub - lb)
         B = X0 @ Ap.T + bp
         marg = None
@@ -159,6 +171,10 @@ def run(R):
                 R.count("signed:%s" % sk)
             R.count("signed:samples_with_negative_component=%d" % len(signed))
         obj = str(rng.choice(["unity", "max"]))
+        if large == 0:
+            obj = "unity"
+        if large is not None:
+            R.count("large:objective:%s" % obj)
         sw = np.array([1.0, 1.0]) if rng.integers(2) else dyadic(rng, 0.5, 2, 1, size=2)
         dch = [1e-6, 1e-5] if mode == "marginal" else [1e-6, 1e-5, 1e-4, 1e-3]
         d1 = float(rng.choice(dch)); dr = float(rng.choice(dch))
@@ -167,7 +183,7 @@ def run(R):
                  neutral_kind=nuk, neutral_point=(None if nuk == "default" else nu), objective=obj, scale_w=sw, delta_norm1=d1, delta_radius=dr, via=via, marginal=marg, signed=signed)
         for key in ("K_kind", "baseline_kind", "lb_kind", "targets", "neutral_kind", "objective", "via"):
             R.count("%s:%s" % (key, c[key]))
-        R.count("size:%d" % size)
+        R.count("size:%s" % (size if size <= 9 else ">=10"))
         kw = dict(neutral_point=(None if nuk == "default" else nu.copy()), delta_norm1=d1, delta_radius=dr, adaptive_objective=obj, scale_w=sw, solver="CLARABEL")
         if via == "estimator":
             filt = np.hstack([np.zeros((nf, 1)), A, np.zeros((nf, 1))]); src = np.hstack([np.zeros((ns, 1)), np.eye(ns), np.zeros((ns, 1))])
